@@ -378,7 +378,7 @@ pub fn generate(tier: &str, seed: u64) -> Vec<Rec> {
                     ks.extend([-t - 1, -t - 3, t, t + 5, 3 * t + 1, -5 * t - 2, i64::MIN, i64::MAX, i64::MIN + 1, 1 << 62, -(1 << 62) - 7].map(|k| k as i128));
                     out.push(Rec::new(14003, ps.clone(), vec![f.clone(), ks]));
                     // full dumps after a rotation: all j at N = 8 (and everywhere in the thorough tier), a sample otherwise
-                    let js: Vec<i64> = if (n == 8 && (ri == 0 || (ri == 3 && ext <= 2))) || thorough { (0..t).collect() }
+                    let js: Vec<i64> = if (n == 8 && (ri == 0 || (ri == 3 && ext <= 2))) || (thorough && n * ext <= 64) { (0..t).collect() }
                                        else { let mut v: Vec<i64> = (0..6).map(|_| rng.range(-t, t - 1)).collect(); v.extend([1, -1, t - 1, i64::MIN]); v };
                     out.push(Rec::new(14002, ps.clone(), vec![f.clone(), js.iter().map(|j| *j as i128).collect()]));
                 }
